@@ -24,6 +24,12 @@ import PyamgV.Proofs.ExtC17SafeR3Misc
 import PyamgV.Proofs.ExtC17SafeR3CC
 import PyamgV.Proofs.ExtC17SafeR3Interior
 import PyamgV.Proofs.ExtRsWholeSafe
+import PyamgV.Proofs.ExtC17R4Color
+import PyamgV.Proofs.ExtC17R4MisK
+import PyamgV.Proofs.ExtC17R4Pairwise
+import PyamgV.Proofs.ExtC17R4Cljp
+import PyamgV.Proofs.ExtC17R4Fit
+import PyamgV.Proofs.ExtC18Bal
 import PyamgV.Proofs.Bfs
 import PyamgV.Proofs.CC
 import PyamgV.Proofs.ColoringLoop
@@ -276,6 +282,74 @@ restate bellman_ford_keeps_cluster_numbers := PyamgV.C17.bellmanFord_safe2
 /-- `most_interior_nodes` (boundary marking with `break`, the call of `bellman_ford`, the new centres `c[m[i]] = i`) -/
 restate most_interior_nodes_safe := PyamgV.C17.mostInterior_safe
 
+/-! ### extension E32 (round 4): the colouring and independent-set kernels of graph.h (models in `Model/ExtC17R4Graph.lean`,
+driver ops `ext_c17r4_*`)
+
+Any structurally valid `n × n` pattern: symmetric or not, self loops, duplicates, unsorted.  Outer loops whose termination
+depends on the weights run on fuel: the statements are "whenever the run returns, every access was in range" for EVERY
+fuel, and "returns within `max_iters` passes" where the kernel has such a bound. -/
+/-- `maximal_independent_set_serial` once more, in the checked style, with the counting facts `vertex_coloring_mis` uses -/
+restate mis_serial_counting_safe := PyamgV.C17R4.misSerial_safe
+/-- one pass of `vertex_coloring_mis` colours at least one node when one is left -/
+restate vertex_coloring_mis_pass_progress := PyamgV.C17R4.vcMisPass_safe
+/-- `vertex_coloring_mis`: in range, and `while(N < num_rows)` terminates within `n` passes -/
+restate vertex_coloring_mis_safe := PyamgV.C17R4.vertexColoringMis_safe
+/-- one row of `maximal_independent_set_parallel`, any marks `active`, `C`, `F`: in range; entries only change from `active`
+to `F` or `C`; with three different marks a node marked `C` never has another neighbour marked `C` or left `active` -/
+restate mis_parallel_row_safe := PyamgV.C17R4.mpRow_safe
+/-- `maximal_independent_set_parallel`, any `max_iters`, any number of passes (termination for `max_iters = -1`:
+`mis_parallel_total` above) -/
+restate mis_parallel_safe := PyamgV.C17R4.misParallel_safe
+/-- … with `max_iters >= 0` it returns within `max_iters` passes -/
+restate mis_parallel_bounded := PyamgV.C17R4.misParallel_bounded
+/-- `vertex_coloring_first_fit`: the accesses `mask[x[j]]` into the `K` bits of `std::vector<bool> mask(K,false)` -/
+restate vertex_coloring_first_fit_safe := PyamgV.C17R4.firstFit_safe
+/-- one round shared by the two parallel colourings (parallel MIS with `max_iters = 1`, un-marking, first fit) keeps
+"uncoloured = -1, colours below `K`"; the separation of the nodes marked `K` is what puts `x[j]` below `K` -/
+restate parallel_coloring_round_safe := PyamgV.C17R4.parRound_safe
+/-- `vertex_coloring_jones_plassmann`, `n > 0`, any weights, any number of rounds (for `n = 0` the final
+`*std::max_element(x, x)` reads `x[0]`) -/
+restate vertex_coloring_jones_plassmann_safe := PyamgV.C17R4.vertexColoringJP_safe
+/-- `vertex_coloring_LDF`, `n > 0`, any weights, any number of rounds -/
+restate vertex_coloring_LDF_safe := PyamgV.C17R4.vertexColoringLDF_safe
+/-- `csr_propagate_max` -/
+restate csr_propagate_max_safe := PyamgV.C17R4.propagateMax_safe
+/-- `maximal_independent_set_k_parallel`, any `k`, any weights, any `max_iters`, any number of iterations -/
+restate mis_k_parallel_safe := PyamgV.C17R4.misKParallel_safe
+/-- … with `max_iters >= 0` it returns within `max_iters` iterations -/
+restate mis_k_parallel_bounded := PyamgV.C17R4.misKParallel_bounded
+
+/-! ### extension E32: `pairwise_aggregation`, `cljp_naive_splitting`, `fit_candidates` (models `Model/ExtC17R4Pairwise.lean`,
+`ExtC17R4Cljp.lean`, `ExtC17R4Fit.lean`) -/
+/-- one pass of `while (!mmap.empty())` of `pairwise_aggregation`: in range (also in the vectors `m`, `mmap_iterators`), every
+multimap iterator it dereferences or erases is still valid (a node with `x == 0` has its pair in the multimap), and the
+multimap gets shorter -/
+restate pairwise_aggregation_pass_safe := PyamgV.C17R4.pwIter_safe
+/-- `pairwise_aggregation`: any structurally valid matrix; `y[next_aggregate-1]` is in range by `(next_aggregate-1) + |mmap| ≤ n`,
+the loop terminates within `n` passes, the returned count is in `0..n` -/
+restate pairwise_aggregation_safe := PyamgV.C17R4.pairwiseAgg_safe
+/-- the selection of `cljp_naive_splitting`: `Dlist[nD]` is in range (`nD ≤ i`) and the first `nD` entries of `Dlist` are nodes -/
+restate cljp_select_safe := PyamgV.C17R4.cjSelect_safe
+/-- one pass of `while(unassigned > 0)`: `S`, `T` any two structurally valid patterns; `edgemark` is indexed by positions of `S` -/
+restate cljp_pass_safe := PyamgV.C17R4.cjPass_safe
+/-- `cljp_naive_splitting`, both weight initialisations, any number of passes (with colouring `n > 0`: for `n = 0` the kernel
+dereferences `max_element` of an empty vector) -/
+restate cljp_naive_splitting_safe := PyamgV.C17R4.cljp_safe
+/-- the pointer loops `while(p < end){ ..; p += K2; }` of `fit_candidates` terminate within `end - p` iterations (`K2 ≥ 1`) -/
+restate strided_pointer_loop_safe := PyamgV.C17R4.forStep_safe
+/-- the second pointer of the two-pointer loops stays in the row of the first one -/
+restate fit_candidates_second_pointer := PyamgV.C17R4.col_in
+/-- `fit_candidates` (the common template of the real and the complex kernel): any CSC pattern, any `K1`, `K2` -/
+restate fit_candidates_safe := PyamgV.C17R4.fitCandidates_safe
+/-- `bellman_ford_balanced` (executable model `Bal.kernel` / `Bal.wrapper` of `Model/ExtC18Bal.lean`, whose data dependent
+accesses `s[m[i]]`, `s[m[j]]`, `pc[p[j]]` are checked; driver ops `ext_c18_bfbal*`, compared with the kernel by this check
+too): on a structurally valid graph with positive weights on a grid coarser than the tolerance the public call never makes
+an out-of-bounds access (it returns, raises a Python error, or throws "too many iterations") … -/
+restate bellman_ford_balanced_no_fault := PyamgV.Bal.wrapper_no_fault
+/-- … and neither does the loop from any state satisfying the invariant `Bal.Inv` (the wrapper's initial arrays, the ones
+of `balanced_lloyd_cluster`, the final state of an earlier call), for any number of sweeps -/
+restate bellman_ford_balanced_loop_no_fault := PyamgV.Bal.loop_no_fault
+
 /-! ### non-vacuity: the flag is true on a well-formed input and false on a malformed one -/
 /-- `rs_cf_splitting`, whole-kernel model: path 0-1-2-3 runs clean ... -/
 example : (PyamgV.RS.runCk PyamgV.RS.path4 PyamgV.RS.path4).ok = true := by decide
@@ -338,6 +412,27 @@ example : ((C17.applyHouseholders exOps #[1,0,0] 2 1 (-1) (-1) 2 #[1,1]).map (·
 /-- E19: path 0–1 plus the isolated node 2: two components, the searches terminate inside their fuel -/
 example : (C17.connectedComponents 3 #[0,1,2,2] #[1,0] #[7,7,7]).val = (#[0,0,1], 2) := by decide
 example : (C17.connectedComponents 3 #[0,1,2,2] #[1,0] #[7,7,7]).ok = true := by decide
+
+/-- E32: the directed path 0→1→2 with a self loop at 2: three colours by `vertex_coloring_mis`; a column index 5 faults -/
+example : (C17R4.vertexColoringMis 3 #[0,1,2,3] #[1,2,2] #[7,7,7]).val = (#[0,1,0], 2) := by decide
+example : (C17R4.vertexColoringMis 3 #[0,1,2,3] #[1,2,2] #[7,7,7]).ok = true := by decide
+example : (C17R4.vertexColoringMis 3 #[0,1,2,3] #[1,5,2] #[7,7,7]).ok = false := by decide
+/-- integer weights for the examples -/
+def exWOps : C17R4.WOps Int := ⟨fun a b => decide (b < a), fun a b => decide (a = b), fun a i => a + i, fun i => i⟩
+/-- E32: Jones-Plassmann on the triangle with equal weights terminates inside its fuel with the flag set; on the empty graph
+(`n = 0`) the final `max_element` read faults -/
+example : ((C17R4.vertexColoringJP exWOps 3 #[0,2,4,6] #[1,2,0,2,0,1] #[7,7,7] #[0,0,0] 4).map (fun r => (r.val.1, r.ok))) = some (#[2,1,0], true) := by decide
+example : ((C17R4.vertexColoringJP exWOps 0 #[0] #[] #[] #[] 1).map (·.ok)) = some false := by decide
+
+/-- E32: `pairwise_aggregation` on the path 0–1–2 with weights 1: two aggregates, the loop ends inside its fuel; `y` too short faults -/
+def exPwOps : C17R4.PwOps Int := ⟨fun a b => decide (b ≤ a), -1000⟩
+example : (C17R4.pairwiseAgg exPwOps 3 #[0,1,3,4] #[1,0,2,1] #[1,1,1,1] #[7,7,7] #[9,9,9]).ok = true := by decide
+example : (C17R4.pairwiseAgg exPwOps 3 #[0,1,3,4] #[1,0,2,1] #[1,1,1,1] #[7,7,7] #[9]).ok = false := by decide
+/-- E32: `fit_candidates` with `K1 = 1`, `K2 = 2` on one aggregate of two nodes (integer scalars, `sqrt = id`): the pointer loops
+terminate with the flag set; with `R` one entry short of `K2²` the run faults -/
+def exFitOps : C17R4.FitOps Int := ⟨(· + ·), (· - ·), (· * ·), (· / ·), 0, 1, fun a => a * a, fun a b => b * a, id, fun a b => decide (b < a)⟩
+example : (C17R4.fitCandidates exFitOps 0 1 1 2 #[0,2] #[0,1] #[7,7,7,7] #[1,0,1,1] #[7,7,7,7]).ok = true := by decide
+example : (C17R4.fitCandidates exFitOps 0 1 1 2 #[0,2] #[0,1] #[7,7,7,7] #[1,0,1,1] #[7,7,7]).ok = false := by decide
 
 /-! ### interface facts regenerated from the working tree on every run (translator tie):
 signatures and const-ness of every native kernel (which arrays a kernel may write) -/
